@@ -301,9 +301,9 @@ class IgdDevice(UpnpProfileDevice):
         """
         Get the external IP address.
 
-        :param services List of service names to try to get action from, defaults to [WANIPC,WANPPP]
+        :param services List of service names to try to get action from, defaults to [WANIPC,WANPPPC]
         """
-        services = services or ["WANIPC", "WANPPP"]
+        services = services or ["WANIPC", "WANPPPC"]
         action = self._any_action(services, "GetExternalIPAddress")
         if not action:
             return None
@@ -319,9 +319,9 @@ class IgdDevice(UpnpProfileDevice):
         Get generic port mapping entry.
 
         :param port_mapping_index Index of port mapping entry
-        :param services List of service names to try to get action from, defaults to [WANIPC,WANPPP]
+        :param services List of service names to try to get action from, defaults to [WANIPC,WANPPPC]
         """
-        services = services or ["WANIPC", "WANPPP"]
+        services = services or ["WANIPC", "WANPPPC"]
         action = self._any_action(services, "GetGenericPortMappingEntry")
         if not action:
             return None
@@ -355,9 +355,9 @@ class IgdDevice(UpnpProfileDevice):
         :param remote_host Address of remote host or None
         :param external_port External port
         :param protocol Protocol, 'TCP' or 'UDP'
-        :param services List of service names to try to get action from, defaults to [WANIPC,WANPPP]
+        :param services List of service names to try to get action from, defaults to [WANIPC,WANPPPC]
         """
-        services = services or ["WANIPC", "WANPPP"]
+        services = services or ["WANIPC", "WANPPPC"]
         action = self._any_action(services, "GetSpecificPortMappingEntry")
         if not action:
             return None
@@ -403,10 +403,10 @@ class IgdDevice(UpnpProfileDevice):
         :param enabled Port mapping enabled
         :param description Description for port mapping
         :param lease_duration Lease duration
-        :param services List of service names to try to get action from, defaults to [WANIPC,WANPPP]
+        :param services List of service names to try to get action from, defaults to [WANIPC,WANPPPC]
         """
         # pylint: disable=too-many-arguments
-        services = services or ["WANIPC", "WANPPP"]
+        services = services or ["WANIPC", "WANPPPC"]
         action = self._any_action(services, "AddPortMapping")
         if not action:
             return
@@ -435,9 +435,9 @@ class IgdDevice(UpnpProfileDevice):
         :param remote_host Address of remote host or None
         :param external_port External port
         :param protocol Protocol, 'TCP' or 'UDP'
-        :param services List of service names to try to get action from, defaults to [WANIPC,WANPPP]
+        :param services List of service names to try to get action from, defaults to [WANIPC,WANPPPC]
         """
-        services = services or ["WANIPC", "WANPPP"]
+        services = services or ["WANIPC", "WANPPPC"]
         action = self._any_action(services, "DeletePortMapping")
         if not action:
             return
@@ -454,9 +454,9 @@ class IgdDevice(UpnpProfileDevice):
         """
         Get connection type info.
 
-        :param services List of service names to try to get action from, defaults to [WANIPC,WANPPP]
+        :param services List of service names to try to get action from, defaults to [WANIPC,WANPPPC]
         """
-        services = services or ["WANIPC", "WANPPP"]
+        services = services or ["WANIPC", "WANPPPC"]
         action = self._any_action(services, "GetConnectionTypeInfo")
         if not action:
             return None
@@ -473,9 +473,9 @@ class IgdDevice(UpnpProfileDevice):
         Set connection type.
 
         :param connection_type connection type
-        :param services List of service names to try to get action from, defaults to [WANIPC,WANPPP]
+        :param services List of service names to try to get action from, defaults to [WANIPC,WANPPPC]
         """
-        services = services or ["WANIPC", "WANPPP"]
+        services = services or ["WANIPC", "WANPPPC"]
         action = self._any_action(services, "SetConnectionType")
         if not action:
             return
@@ -488,9 +488,9 @@ class IgdDevice(UpnpProfileDevice):
         """
         Request connection.
 
-        :param services List of service names to try to get action from, defaults to [WANIPC,WANPPP]
+        :param services List of service names to try to get action from, defaults to [WANIPC,WANPPPC]
         """
-        services = services or ["WANIPC", "WANPPP"]
+        services = services or ["WANIPC", "WANPPPC"]
         action = self._any_action(services, "RequestConnection")
         if not action:
             return
@@ -503,9 +503,9 @@ class IgdDevice(UpnpProfileDevice):
         """
         Request connection termination.
 
-        :param services List of service names to try to get action from, defaults to [WANIPC,WANPPP]
+        :param services List of service names to try to get action from, defaults to [WANIPC,WANPPPC]
         """
-        services = services or ["WANIPC", "WANPPP"]
+        services = services or ["WANIPC", "WANPPPC"]
         action = self._any_action(services, "RequestTermination")
         if not action:
             return
@@ -518,9 +518,9 @@ class IgdDevice(UpnpProfileDevice):
         """
         Force connection termination.
 
-        :param services List of service names to try to get action from, defaults to [WANIPC,WANPPP]
+        :param services List of service names to try to get action from, defaults to [WANIPC,WANPPPC]
         """
-        services = services or ["WANIPC", "WANPPP"]
+        services = services or ["WANIPC", "WANPPPC"]
         action = self._any_action(services, "ForceTermination")
         if not action:
             return
@@ -533,9 +533,9 @@ class IgdDevice(UpnpProfileDevice):
         """
         Get status info.
 
-        :param services List of service names to try to get action from, defaults to [WANIPC,WANPPP]
+        :param services List of service names to try to get action from, defaults to [WANIPC,WANPPPC]
         """
-        services = services or ["WANIPC", "WANPPP"]
+        services = services or ["WANIPC", "WANPPPC"]
         action = self._any_action(services, "GetStatusInfo")
         if not action:
             return None
@@ -558,9 +558,9 @@ class IgdDevice(UpnpProfileDevice):
         """
         Get number of port mapping entries.
 
-        :param services List of service names to try to get action from, defaults to [WANIPC,WANPPP]
+        :param services List of service names to try to get action from, defaults to [WANIPC,WANPPPC]
         """
-        services = services or ["WANIPC", "WANPPP"]
+        services = services or ["WANIPC", "WANPPPC"]
         action = self._any_action(services, "GetPortMappingNumberOfEntries")
         if not action:
             return None
@@ -579,9 +579,9 @@ class IgdDevice(UpnpProfileDevice):
         """
         Get NAT enabled and RSIP availability statuses.
 
-        :param services List of service names to try to get action from, defaults to [WANIPC,WANPPP]
+        :param services List of service names to try to get action from, defaults to [WANIPC,WANPPPC]
         """
-        services = services or ["WANIPC", "WANPPP"]
+        services = services or ["WANIPC", "WANPPPC"]
         action = self._any_action(services, "GetNATRSIPStatus")
         if not action:
             return None
